@@ -22,6 +22,45 @@ func factsAll() {
 	factsConfig()
 	factsMiner()
 	factsFractal()
+	factsConditions()
+}
+
+// factsConditions: the comparison expressions the models transcribe, as they stand in the source (white space
+// removed).  A theorem per model lists the expected texts; an edit of one of these conditions re-opens it.
+func factsConditions() {
+	squash := func(t string) string { return strings.Join(strings.Fields(t), "") }
+	has := func(dir, fn string, texts ...string) bool {
+		fd := findFuncAny(dir, fn)
+		if fd == nil {
+			return false
+		}
+		src := squash(srcOf(dir, fd))
+		for _, t := range texts {
+			if !strings.Contains(src, squash(t)) {
+				return false
+			}
+		}
+		return true
+	}
+	const cap = "poc/engine/spacekeeper/capacity"
+	const mn = "poc/engine/pocminer/miner"
+	type c struct {
+		lean, dir, fn string
+		texts         []string
+	}
+	for _, x := range []c{
+		{"condFillBySize", cap, "fillSpaceListBySize", []string{"currentSize > targetSize", "currentSize == targetSize || targetSize-currentSize < int(poc.ProofTypeDefault.PlotSize(poc.MinValidDefaultBitLength))"}},
+		{"condFillByPath", cap, "fillSpaceListByPathSize", []string{"space.rootDir != path", "currentSize > targetSize", "currentSize == targetSize || targetSize-currentSize < int(poc.ProofTypeDefault.PlotSize(poc.MinValidDefaultBitLength))"}},
+		{"condGenBySize", cap, "generateFillSpaceListBySize", []string{"!sk.allowGenerateNewSpace", "sk.checkOSDiskSize(targetSize - currentSize)", "targetSize-currentSize < int(poc.ProofTypeDefault.PlotSize(bl))"}},
+		{"condGenByPath", cap, "generateFillSpaceListByPathSize", []string{"!sk.allowGenerateNewSpace", "checkOSDiskSizeByPath(path, targetSize-currentSize)", "targetSize-currentSize < int(poc.ProofTypeDefault.PlotSize(bl))"}},
+		{"condCheckDisk", cap, "checkOSDiskSizeByPath", []string{"requiredBytes < 0", "uint64(requiredBytes) >= info.Free"}},
+		{"condConfigureBySize", cap, "ConfigureBySize", []string{"targetSize < poc.ProofTypeDefault.PlotSize(usableBitLength()[0])", "int(targetSize)"}},
+		{"condMinerSearch", mn, "syncGetBestProof", []string{"workSlot > nowSlot+allowAhead", "i <= nowSlot+allowAhead", "quality.Cmp(bestQuality) > 0", "bestQuality.Cmp(pocTemplate.GetTarget(pocTemplate.Timestamp)) > 0", "bestQuality.SetUint64(0)", "uint64(pocTemplate.Timestamp.Unix()) / pocSlot"}},
+		{"condMinerSubmit", mn, "submitBlock", []string{"time.Now().After(block.MsgBlock().Header.Timestamp)", "m.minedHeight[block.Height()] = struct{}{}"}},
+		{"condMinerDouble", mn, "solveBlock", []string{"m.minedHeight[pocTemplate.Height]", "errAvoidDoubleMining", "m.SpaceKeeper.SignHash(tProof.proof.SpaceID, pocHash)"}},
+	} {
+		emit("/-- `%s` in %s contains %q -/\ndef %s : Bool := %v", x.fn, x.dir, x.texts, x.lean, has(x.dir, x.fn, x.texts...))
+	}
 }
 
 // factsFractal: structure of the cluster task router (C17).
